@@ -572,7 +572,7 @@ impl<'a> Interp<'a> {
         // ---- model verdict
         let mut msg_reject: Option<&'static str> = None;
         let mut expected_valid: Vec<usize> = vec![];
-        let mut grey: BTreeSet<usize> = BTreeSet::new();
+        let mut dup_of_live: BTreeSet<usize> = BTreeSet::new();
         let mut new_deals: Vec<MDeal> = vec![];
         if batch.is_empty() {
             msg_reject = Some("empty batch");
@@ -610,20 +610,17 @@ impl<'a> Interp<'a> {
                             let mut norm = p.clone();
                             norm.provider = Address::new_id(provider);
                             let cid = proposal_cid(&norm);
-                            // identical proposal pending and not yet activated, or twice in this batch: must be rejected
-                            let live_unactivated = self.m.deals.values().any(|d| d.cid == cid && d.st == DealSt::Published);
-                            if seen.contains(&cid) || live_unactivated {
+                            // an identical proposal whose deal is still alive (activated or not), or twice in this batch: must be
+                            // rejected — the client's one signature authenticates one deal.  (A proposal can only be published
+                            // before its start epoch, and until then the market has to remember it.)
+                            let live = self.m.deals.values().any(|d| d.cid == cid);
+                            if seen.contains(&cid) || live {
                                 self.stats.label("duplicate_rejected_expected");
-                                continue;
-                            }
-                            if self.m.pending.contains(&cid) || self.m.deals.values().any(|d| d.cid == cid) {
-                                // an identical proposal is live but already activated: the code rejects it while it
-                                // is still listed as pending and accepts it afterwards; the statement allows either.
-                                // The model mirrors the code; a disagreement in such a batch abandons the history.
-                                grey.insert(j);
-                                if self.m.pending.contains(&cid) {
-                                    continue;
+                                if self.m.deals.values().any(|d| d.cid == cid && d.st != DealSt::Published) {
+                                    self.stats.label("republish_of_activated_deal");
                                 }
+                                dup_of_live.insert(j);
+                                continue;
                             }
                             seen.insert(cid);
                             client_lock.insert(client, need_c);
@@ -659,18 +656,10 @@ impl<'a> Interp<'a> {
             }
             let ret: mk::PublishStorageDealsReturn = r.de().ok_or_else(|| Violation::new("publish-return", "undecodable return"))?;
             let actual_valid: Vec<usize> = ret.valid_deals.iter().map(|x| x as usize).collect();
-            if !grey.is_empty() {
-                self.stats.label("republish_of_activated_deal");
-                if actual_valid != expected_valid {
-                    self.stats.label("grey_zone_disagreement_history_abandoned");
-                    self.abandon = true;
-                    return Ok(());
-                }
-            }
             // every accepted deal must be one the protocol allows
             for j in &actual_valid {
                 if !expected_valid.contains(j) {
-                    let why = batch[*j].1.unwrap_or("duplicate, foreign provider or insufficient unlocked escrow");
+                    let why = if dup_of_live.contains(j) { "it replays the signed proposal of a deal that is still alive" } else { batch[*j].1.unwrap_or("duplicate, foreign provider or insufficient unlocked escrow") };
                     vfail!("deal-accepted", "deal #{} of the batch was accepted although: {}", j, why);
                 }
             }
